@@ -300,6 +300,8 @@ Plan gen_c01(uint64_t seed, const GenOpts &o) {
       case 8: { Op &op = g.op(OP_WAIT, 0); op.a = killed ? g.C.INFINITE_ : 400; break; }
     }
     if (g.chance(4)) add_random_fault(g, (int) g.p.ops.size() - 1, g.p.ops.back().kind);
+    // the child has been collected by somebody else: the honest answer is the error, never an invented status
+    else if ((g.p.ops.back().kind == OP_WAIT || g.p.ops.back().kind == OP_STOP) && g.chance(4)) g.fault((int) g.p.ops.size() - 1, K_waitpid, 1, false, ECHILD);
   }
   if (g.chance(50)) { g.op(OP_KILL, 0); Op &w = g.op(OP_WAIT, 0); w.a = g.C.INFINITE_; Op &w2 = g.op(g.chance(50) ? OP_WAIT : OP_STOP, 0); w2.a = 0; }
   g.op(OP_DESTROY, 0);
@@ -1297,7 +1299,8 @@ Plan gen_c20(uint64_t seed, const GenOpts &o) {
         g.op(OP_CLOSE, t, t).a = g.C.STREAM_IN;
         // a close that reports EINTR has closed the descriptor all the same: the number may already be another thread's
         if (g.chance(15)) g.fault((int) g.p.ops.size() - 1, K_close, 1, false, EINTR);
-        Op &rd = g.op(OP_READ, t, t); rd.a = g.C.STREAM_OUT; rd.b = 64; rd.c = 1;
+        if (g.chance(40)) { Op &dr = g.op(OP_DRAIN, t, t); dr.a = 0; dr.b = 0; }  // several threads inside drain at once, each on its own handle
+        else { Op &rd = g.op(OP_READ, t, t); rd.a = g.C.STREAM_OUT; rd.b = 64; rd.c = 1; }
         g.op(OP_WAIT, t, t).a = 3000;
         if (t == 0) g.op(OP_STRERROR, -1, t).a = -22;
         g.op(OP_DESTROY, t, t);
